@@ -8,6 +8,7 @@ CONSTANTS
  MaxGen = 1
  DirUsable = TRUE
  IoFaults = 0
+ WriteFaults = 1
  EarlyHandBack = FALSE
 INVARIANTS TypeOK
 PROPERTIES DestroyTerminates
